@@ -4,3 +4,4 @@ import NmfuProps.C05
 import NmfuProps.C06
 import NmfuProps.C02
 import NmfuProps.C10
+import NmfuProps.C17
